@@ -36,7 +36,14 @@ func c14Check(c *core.Ctx, cfg bandCfg, b band.Band, custom map[int]bool, netEna
 	for _, d := range dev {
 		devSet[d] = true
 	}
-	state := make([]bool, n)
+	// a device may still have channels enabled that the network's plan no longer has ("stale" indices >= n)
+	ns, stale := n, false
+	for _, d := range dev {
+		if d >= ns {
+			ns, stale = (d/16+1)*16, true
+		}
+	}
+	state := make([]bool, ns)
 	for i := range state {
 		state[i] = devSet[i]
 	}
@@ -83,7 +90,7 @@ func c14Check(c *core.Ctx, cfg bandCfg, b band.Band, custom map[int]bool, netEna
 			c.Violate("C14|"+cfg.Name+"|apply-differs", "library apply gives %v, expected %v | %s", lib, want, ctx())
 		}
 	}
-	if len(pls) > (n+15)/16+1 {
+	if len(pls) > (n+15)/16+1 && !stale {
 		c.Violate("C14|"+cfg.Name+"|too-many-payloads", "%d payloads for %d channels | %s", len(pls), n, ctx())
 	}
 	same := len(devSet) == len(netEnabled)
@@ -150,6 +157,19 @@ func runC14(c *core.Ctx) {
 				steps = 0
 			}
 			extra := 0
+			if reg.ExtraChannels && h%3 == 2 {
+				// plans that reach into the second and third 16-channel block
+				for k := 10 + r.Intn(14); k > 0; k-- {
+					f := reg.Uplink[0].Freq + uint32(1+r.Intn(60))*200000
+					if b.AddChannel(f, 0, 5) == nil {
+						custom[n] = true
+						enabled[n] = true
+						n++
+						extra++
+					}
+				}
+				hist = append(hist, fmt.Sprintf("add x%d", extra))
+			}
 			for s := 0; s < steps; s++ {
 				switch r.Intn(4) {
 				case 0, 1:
@@ -300,6 +320,14 @@ func runC14(c *core.Ctx) {
 				}
 			}
 			patterns["full"], patterns["alternating"], patterns["one-block"], patterns["one-subband"], patterns["only-500khz"] = full, alt, blk, sub, wide
+			if reg.ExtraChannels {
+				// channels the plan does not have (any more) are still switched on in the device
+				st := append([]int{}, netList...)
+				for k := 1 + r.Intn(3); k > 0; k-- {
+					st = append(st, n+r.Intn(20))
+				}
+				patterns["stale-indices"] = st
+			}
 			if len(netList) > 0 {
 				k := r.Intn(len(netList))
 				patterns["network-minus-one"] = append(append([]int{}, netList[:k]...), netList[k+1:]...)
